@@ -69,3 +69,27 @@ pub fn h_glob() {
         sym::check("C05/plain-identical", got == spec::bytes_eq(p.as_bytes(), name.as_bytes()));
     }
 }
+
+/// glob shapes against names with characters that shell-style matchers like to special-case: a leading '.', '/',
+/// upper case (the match is case-sensitive, and '*', '?' and sets match '.' and '/' like any other character)
+pub fn h_glob_special() {
+    let shapes = ["*", "?", "?*", "*?", "[!b]*", "[a-c]*", "a*", "*a", "?a", "a?", "*/*", "*.*", "[.]*", "[A-Z]?"];
+    let p = shapes[sym::choose("shape", shapes.len())];
+    let name = sym::any_str("name", "set:a.A/bé", 0, sym::bound(3, 4));
+    let c = match Pattern::new(p) {
+        Ok(c) => c,
+        Err(_) => {
+            sym::check("C05/special-compiles", false);
+            return;
+        }
+    };
+    let pc = spec::chars_of(p);
+    let g = spec::glob_parse(&pc).unwrap();
+    let nc = spec::chars_of(&name);
+    let want = spec::glob_match(&g, 0, &nc, 0);
+    let got = c.matches(&name);
+    sym::observe_bool("matches", got);
+    sym::cover("special-matched", got);
+    sym::cover("special-rejected", !got);
+    sym::check("C05/glob-special-chars", got == want);
+}
